@@ -19,3 +19,33 @@ Lemma multi_tan_plumbing :
   exists e, nth_error (snd tile_multi_tan_impl_model) 1 = Some e /\
             e = SMethod (SNewP "MultiTanProcessor" [mt_collection] []) "tile" (call_pos e) [("parallel", setting "parallelism"); ("cli_progress", SB true)].
 Proof. split; [reflexivity|]. eexists. split; reflexivity. Qed.
+
+(* ---- toasty view (local) ---- *)
+Lemma src_view_locally_eq (is_none : sval unit -> bool) (eq_lit : sval unit -> string -> bool) (is_true : sval unit -> bool) :
+  run_tree is_none eq_lit is_true src_cli_view_locally = view_locally_model eq_lit is_true.
+Proof.
+  unfold view_locally_model, tiling_method_table, src_cli_view_locally. cbn [run_tree view_from].
+  unfold view_calls, view_tiler, view_collection, setting.
+  repeat (match goal with |- context [eq_lit ?v ?l] => destruct (eq_lit v l) end;
+          [match goal with |- context [is_true ?v] => destruct (is_true v) end; reflexivity|]).
+  reflexivity.
+Qed.
+
+(* the collection `toasty view` tiles is loaded from the paths exactly as given (a path named twice
+   stays twice, so per-file --hdu-index / --wcs-key lists keep their positions), by the loader built
+   from the settings; every method name selects its own TilingMethod; --parallelism reaches the tiler *)
+Lemma view_plumbing (m tm : string) (is_true : sval unit -> bool) :
+  In (m, tm) tiling_method_table ->
+  exists rest,
+    view_locally_model (fun _ s => String.eqb m s) is_true
+    = (true, SMethod (SName "warnings") "simplefilter" [SStr "ignore"] []
+             :: SMethod (SNewP "FitsTiler"
+                               [SCallA "load_paths" (SCallA "create_from_args" (SName "CollectionLoader") [SName "settings"] [])
+                                       [setting "paths"] []]
+                               [("tiling_method", SAttr tm (SName "TilingMethod"))])
+                        "tile" [] [("cli_progress", SB true); ("parallel", setting "parallelism")]
+             :: rest).
+Proof.
+  unfold tiling_method_table. cbn [In].
+  intros [H|[H|[H|[H|[]]]]]; injection H as <- <-; eexists; reflexivity.
+Qed.
